@@ -206,8 +206,22 @@ class SymEval:
             return (p0.get('name') == cv), {}
         return None, {}
 
-    def match(self, m, env, kbody):
-        scrut = self.subst(m['scrut'], env)
+    def match(self, m, env, kbody, _scrut=None):
+        if _scrut is None:
+            s0 = m['scrut']
+            while isinstance(s0, dict) and s0.get('k') == 'addr':
+                s0 = s0['e']
+            if isinstance(s0, dict) and s0.get('k') in ('block', 'match', 'if') and \
+                    not (s0.get('k') == 'match' and s0.get('src', '').startswith('TryDesugar')):
+                # the scrutinee is itself a decision (an inlined classifier): match each of its outcomes
+                sv = self.value(s0, env)
+                if sv[0] == 'ite':
+                    def dist(t):
+                        if t[0] == 'ite':
+                            return ('ite', t[1], dist(t[2]), dist(t[3]))
+                        return self.match(m, env, kbody, _scrut=t[1])
+                    return dist(sv)
+        scrut = _scrut if _scrut is not None else self.subst(m['scrut'], env)
 
         def arms(i):
             if i >= len(m['arms']):
@@ -245,12 +259,15 @@ class SymEval:
             raise Stop()
         if not stmts:
             # the tail expression can itself be control flow with returns/assignments
-            if isinstance(tail, dict) and tail.get('k') in ('if', 'match', 'block', 'ret') and self._has_effects(tail):
+            if isinstance(tail, dict) and tail.get('k') in ('if', 'match', 'block', 'ret', 'loop') and self._has_effects(tail):
                 return self.stmt(tail, env, lambda env2: k(env2, None), kret, as_tail=k)
-            if isinstance(tail, dict) and (tail.get('k') in ('assign', 'assignop') or
-                                           (self.track_let_blocks and tail.get('k') in ('call', 'mcall'))):
+            if isinstance(tail, dict) and tail.get('k') in ('assign', 'assignop'):
                 # an effect in tail position (`Kind::A => x = y,`)
                 return self.stmt(tail, env, lambda env2: k(env2, None), kret)
+            if isinstance(tail, dict) and self.track_let_blocks and tail.get('k') in ('call', 'mcall'):
+                # a call in tail position: its tracked effects happen, its value is still the block's value
+                env_c = self.effect(tail, env)
+                return k(env_c if env_c is not None else env, tail)
             return k(env, tail)
         st, rest = stmts[0], stmts[1:]
         return self.stmt(st, env, lambda env2: self.seq(rest, tail, env2, k, kret=kret), kret)
